@@ -84,7 +84,7 @@ def forObjectStep (group : Bool) (ek ev : Val → Val → Out) (ec : Option (Val
             let st := { st with diags := st.diags ++ vd }
             if group then { st with kvs := groupInsert k v st.kvs }
             else if (lookupKey k st.kvs).isSome then
-              { st with diags := st.diags ++ [⟨"Duplicate object key", [.str kf k]⟩] }
+              { st with diags := st.diags ++ [⟨"Duplicate object key", if st.marks.m then [] else [.str kf k]⟩] }
             else { st with kvs := groupInsert k v st.kvs }
           | _ => { st with known := false }
   match ec with
